@@ -12,19 +12,24 @@
 
 /* the pool layer by thin contract (its own steps: units pool_alloc / pool_free) */
 unsigned vf_pool_allocs, vf_pool_frees; const void *vf_pool_alloc_pool, *vf_pool_free_pool, *vf_pool_freed; void *vf_pool_block; int vf_pool_fail;
+static ABTI_global glob; static ABTI_xstream xs;
+/* the two caches shared by all external threads are touched only under THEIR OWN lock (a cache is a plain
+ * single-owner structure: two threads inside it at once hand one block out twice) */
+#define VF_SHARED_POOL_LOCKED(p) (((p) != &glob.mem_pool_desc_ext || (vf_lock_held == 1 && vf_lock_which == &glob.mem_pool_desc_lock)) && ((p) != &glob.mem_pool_stack_ext || (vf_lock_held == 1 && vf_lock_which == &glob.mem_pool_stack_lock)))
 #ifndef VF_UNIT_POOL
 static inline int ABTI_mem_pool_alloc(ABTI_mem_pool_local_pool *p_local_pool, void **p_mem)
+__CPROVER_requires(VF_SHARED_POOL_LOCKED(p_local_pool))
 __CPROVER_assigns(*p_mem, vf_pool_allocs, vf_pool_alloc_pool)
 __CPROVER_ensures(vf_pool_allocs == __CPROVER_old(vf_pool_allocs) + 1 && vf_pool_alloc_pool == p_local_pool)
 __CPROVER_ensures(vf_pool_fail ==> __CPROVER_return_value == ABT_ERR_MEM)
 __CPROVER_ensures(!vf_pool_fail ==> __CPROVER_return_value == ABT_SUCCESS)
 __CPROVER_ensures(!vf_pool_fail ==> __CPROVER_pointer_equals(*p_mem, vf_pool_block));
 static inline void ABTI_mem_pool_free(ABTI_mem_pool_local_pool *p_local_pool, void *mem)
+__CPROVER_requires(VF_SHARED_POOL_LOCKED(p_local_pool))
 __CPROVER_assigns(vf_pool_frees, vf_pool_free_pool, vf_pool_freed)
 __CPROVER_ensures(vf_pool_frees == __CPROVER_old(vf_pool_frees) + 1 && vf_pool_free_pool == p_local_pool && vf_pool_freed == mem);
 #endif
 
-static ABTI_global glob; static ABTI_xstream xs;
 
 #ifdef VF_UNIT_STACK
 /* a ULT created with ANY positive stack size gets at least that much stack and
@@ -51,14 +56,14 @@ void h_malloc_desc_stack(void)
 /* ABTI_mem_free_thread returns every kind of descriptor to where it came from */
 void h_free_thread_routes(void)
 {
-    static ABTI_ythread yt; int kind; VF_ASSUME(0 <= kind && kind <= 1); int ext; ABTI_local *l = ext ? NULL : (ABTI_local *)&xs;
-    yt.thread.type = (kind == 0 ? ABTI_THREAD_TYPE_MEM_MEMPOOL_DESC_STACK : ABTI_THREAD_TYPE_MEM_MEMPOOL_DESC) | ABTI_THREAD_TYPE_YIELDABLE;
-    static char stk[256]; yt.ctx.p_stacktop = stk + 256; yt.ctx.stacksize = 256;
+    static ABTI_ythread yt; int kind; VF_ASSUME(0 <= kind && kind <= 3); /* 0 stack+descriptor block, 1 ULT descriptor, 2 tasklet descriptor, 3 lazy-stack ULT that has no stack */ int ext; ABTI_local *l = ext ? NULL : (ABTI_local *)&xs;
+    yt.thread.type = kind == 0 ? (ABTI_THREAD_TYPE_MEM_MEMPOOL_DESC_STACK | ABTI_THREAD_TYPE_YIELDABLE) : kind == 1 ? (ABTI_THREAD_TYPE_MEM_MEMPOOL_DESC | ABTI_THREAD_TYPE_YIELDABLE) : kind == 2 ? ABTI_THREAD_TYPE_MEM_MEMPOOL_DESC : (ABTI_THREAD_TYPE_MEM_MEMPOOL_DESC_MEMPOOL_LAZY_STACK | ABTI_THREAD_TYPE_YIELDABLE);
+    static char stk[256]; if (kind == 3) { yt.ctx.p_stacktop = NULL; yt.ctx.stacksize = 256; } else { yt.ctx.p_stacktop = stk + 256; yt.ctx.stacksize = 256; }
     glob.stack_guard_kind = ABTI_STACK_GUARD_NONE; vf_pool_frees = 0; vf_lock_held = 0; unsigned a0 = vf_acquires, r0 = vf_releases;
     ABTI_mem_free_thread(&glob, l, &yt.thread);
     VF_ASSERT(vf_pool_frees == 1 && vf_pool_freed == &yt, "returned exactly once, as the block that was handed out");
     if (kind == 0) VF_ASSERT(vf_pool_free_pool == (ext ? (void *)&glob.mem_pool_stack_ext : (void *)&xs.mem_pool_stack), "stack+descriptor blocks go back to a STACK pool (the stream's, or the shared one for external threads)");
-    else VF_ASSERT(vf_pool_free_pool == (ext ? (void *)&glob.mem_pool_desc_ext : (void *)&xs.mem_pool_desc), "descriptor blocks go back to a DESCRIPTOR pool");
+    else VF_ASSERT(vf_pool_free_pool == (ext ? (void *)&glob.mem_pool_desc_ext : (void *)&xs.mem_pool_desc), "descriptor blocks (ULT, tasklet, lazy-stack ULT) go back to a DESCRIPTOR pool");
     VF_ASSERT(ext ? (vf_acquires == a0 + 1 && vf_releases == r0 + 1 && vf_lock_held == 0 && vf_lock_which == (kind == 0 ? (void *)&glob.mem_pool_stack_lock : (void *)&glob.mem_pool_desc_lock)) : vf_acquires == a0, "the shared pool is touched only under its lock; a stream's own pool needs none");
     VF_REACH("free routes");
 }
